@@ -165,7 +165,10 @@ class C08(F.PropCheck):
             else:
                 w = (rng.randrange(200000, max(200001, t_est)) if rng.random() < 0.5 or not marks else max(200000, rng.choice(marks) + rng.choice([5, 3337, 60011, 120013, 500017, 950003]))) | 1
                 boot = (W32 - w) % W32; tags.append('boot:wrap-inside')
-        cfg = [boot, n, 0, 1, btn, bflags, mmode, up_ms, down_ms, rng.choice([0, 300]), rsflags, t1, t2, 0, mask if n == 4 and not legacy_buttons else 0, extra]
+        # running clock: each read of the counter costs 1 us (as on the chip, time passes inside a call) in a share of the cases
+        tick = 0 if legacy_buttons else rng.choice([0, 1, 1])
+        if tick: tags.append('running-clock')
+        cfg = [boot, n, 0, 1, btn, bflags, mmode, up_ms, down_ms, rng.choice([0, 300]), rsflags, t1, t2, 0, mask if n == 4 and not legacy_buttons else 0, extra, tick]
         return F.Case(cid, [('CFG', cfg, b'')] + evs, tags)
 
     def gen_cases(self, rng, n, tier):
